@@ -16,7 +16,7 @@ fn base_program(foo_params: Vec<ParamDecl>, foo_fields: Vec<Ty>, as_enum: bool, 
     let g = Def {
         module: vec!["m".into()],
         name: "G".into(),
-        params: vec![ParamDecl { name: "X".into(), skipped: false, cfg: false }],
+        params: vec![ParamDecl { name: "X".into(), skipped: false, cfg: false, uint: false }],
         kind: DefKind::Struct(Style::Named, vec![fld("x", Ty::Param(0))]),
         docs: vec![],
     };
@@ -119,7 +119,7 @@ pub fn generic1_case(mut idx: u64) -> Program {
         fields.push(pl[(rest % p) as usize].clone());
         rest /= p;
     }
-    let mut prog = base_program(vec![ParamDecl { name: "T".into(), skipped: false, cfg: false }], fields, false, false);
+    let mut prog = base_program(vec![ParamDecl { name: "T".into(), skipped: false, cfg: false, uint: false }], fields, false, false);
     prog.roots = ord.iter().map(|a| Ty::Def(1, vec![ARGS[*a].clone()])).collect();
     prog
 }
@@ -156,7 +156,7 @@ pub fn assoc_case(mut idx: u64) -> Program {
         fields.push(pl[(rest % p) as usize].clone());
         rest /= p;
     }
-    let mut prog = base_program(vec![ParamDecl { name: "T".into(), skipped, cfg: true }], fields, false, false);
+    let mut prog = base_program(vec![ParamDecl { name: "T".into(), skipped, cfg: true, uint: false }], fields, false, false);
     prog.markers = vec![
         Marker { assoc: vec![ASSOC_CHOICES[a0](), Ty::Prim(Prim::U32)] },
         Marker { assoc: vec![ASSOC_CHOICES[a1](), Ty::Prim(Prim::U32)] },
@@ -177,7 +177,7 @@ pub fn random_family<R: Rng>(rng: &mut R) -> Program {
     let params: Vec<ParamDecl> = (0..nparams)
         .map(|i| {
             let cfg = assoc && i == 0;
-            ParamDecl { name: ["T", "U"][i].into(), skipped: cfg && rng.gen_bool(0.5), cfg }
+            ParamDecl { name: ["T", "U"][i].into(), skipped: cfg && rng.gen_bool(0.5), cfg, uint: false }
         })
         .collect();
     for (i, p) in params.iter().enumerate() {
@@ -228,9 +228,142 @@ pub fn merge(a: &PortableRegistry, b: &PortableRegistry) -> PortableRegistry {
     PortableRegistry { types }
 }
 
+/// One small local change somewhere inside a type expression (a wire-visible one): primitive
+/// swapped, array length changed, bit store / order changed, compact added or removed, tuple
+/// member dropped, Vec <-> array. Returns what was done.
+pub fn mutate_ty<R: Rng>(rng: &mut R, t: &mut Ty) -> Option<&'static str> {
+    // collect mutable candidate positions by walking with a counter
+    fn count(t: &Ty) -> usize {
+        let mut n = 0;
+        t.walk(&mut |_| n += 1);
+        n
+    }
+    fn nth<'a>(t: &'a mut Ty, k: &mut usize) -> Option<&'a mut Ty> {
+        if *k == 0 {
+            return Some(t);
+        }
+        *k -= 1;
+        use Ty::*;
+        match t {
+            Def(_, a) | Tuple(a) => {
+                for x in a.iter_mut() {
+                    if let Some(r) = nth(x, k) {
+                        return Some(r);
+                    }
+                }
+                None
+            }
+            Vec(x) | VecDeque(x) | Array(x, _) | Option(x) | Box(x) | Cow(x) | BTreeSet(x) | BinaryHeap(x) | Range(x) | RangeInclusive(x) | Phantom(x) | Compact(x) | Alias(_, x) => nth(x, k),
+            Result(a, b) | BTreeMap(a, b) => {
+                if let Some(r) = nth(a, k) {
+                    return Some(r);
+                }
+                nth(b, k)
+            }
+            _ => None,
+        }
+    }
+    for attempt in 0..12 {
+        // first attempts: aim at a bit sequence / array / compact node if there is one
+        let mut specials = std::vec::Vec::new();
+        let mut idx = 0usize;
+        t.walk(&mut |x| {
+            if matches!(x, Ty::BitVec(..) | Ty::Array(..) | Ty::Compact(..)) {
+                specials.push(idx);
+            }
+            idx += 1;
+        });
+        let mut k = if attempt < 3 && !specials.is_empty() && rng.gen_bool(0.7) { *specials.choose(rng).unwrap() } else { rng.gen_range(0..count(t)) };
+        let Some(pos) = nth(t, &mut k) else { continue };
+        let what = match pos {
+            Ty::Prim(p) if Prim::UINTS.contains(p) => {
+                let cur = *p;
+                *p = **Prim::UINTS.iter().filter(|q| **q != cur).collect::<std::vec::Vec<_>>().choose(rng).unwrap();
+                "changed an unsigned primitive"
+            }
+            Ty::Prim(p) => {
+                *p = if *p == Prim::Bool { Prim::I8 } else { Prim::Bool };
+                "changed a primitive"
+            }
+            Ty::Array(_, n) => {
+                *n = if *n == 0 { 1 } else { *n - 1 };
+                "changed an array length"
+            }
+            Ty::BitVec(s, msb) => {
+                if rng.gen_bool(0.5) {
+                    *s = if *s == Prim::U8 { Prim::U16 } else { Prim::U8 };
+                    "changed a bit-sequence store"
+                } else {
+                    *msb = !*msb;
+                    "changed a bit-sequence order"
+                }
+            }
+            Ty::Compact(inner) => {
+                let i = (**inner).clone();
+                *pos = i;
+                "removed a Compact"
+            }
+            Ty::Tuple(ts) if !ts.is_empty() => {
+                ts.pop();
+                "dropped a tuple member"
+            }
+            Ty::Vec(x) => {
+                let i = (**x).clone();
+                *pos = Ty::Array(i.b(), 2);
+                "turned a Vec into an array"
+            }
+            Ty::Option(x) => {
+                let i = (**x).clone();
+                *pos = Ty::Result(i.b(), Ty::Prim(Prim::U8).b());
+                "turned an Option into a Result"
+            }
+            Ty::Str => {
+                *pos = Ty::Vec(Ty::Prim(Prim::U16).b());
+                "turned a String into a Vec<u16>"
+            }
+            _ => continue,
+        };
+        return Some(what);
+    }
+    None
+}
+
 /// One random edit of a program (a new crate version): returns a description.
 pub fn edit_program<R: Rng>(rng: &mut R, p: &mut Program) -> String {
     let d = rng.gen_range(0..p.defs.len());
+    // half of the time: a small local change inside one field type
+    if rng.gen_bool(0.5) {
+        let def = &mut p.defs[d];
+        let fields: std::vec::Vec<&mut FieldDecl> = match &mut def.kind {
+            DefKind::Struct(_, fs) => fs.iter_mut().collect(),
+            DefKind::Enum(vs) => vs.iter_mut().flat_map(|v| v.fields.iter_mut()).collect(),
+        };
+        let mut cands: std::vec::Vec<&mut FieldDecl> = fields.into_iter().filter(|f| !f.compact && !f.skip && !matches!(f.ty, Ty::Phantom(_))).collect();
+        // prefer fields with rarely generated shapes (bit sequences, arrays, compacts): every
+        // arm of a shape comparison deserves its share of edits
+        let special: std::vec::Vec<usize> = cands
+            .iter()
+            .enumerate()
+            .filter(|(_, f)| {
+                let mut hit = false;
+                f.ty.walk(&mut |t| {
+                    if matches!(t, Ty::BitVec(..) | Ty::Array(..) | Ty::Compact(..)) {
+                        hit = true
+                    }
+                });
+                hit
+            })
+            .map(|(i, _)| i)
+            .collect();
+        if !cands.is_empty() {
+            let i = if !special.is_empty() && rng.gen_bool(0.6) { *special.choose(rng).unwrap() } else { rng.gen_range(0..cands.len()) };
+            if let Some(what) = mutate_ty(rng, &mut cands[i].ty) {
+                let name = p.defs[d].name.clone();
+                make_compilable(&mut p.defs[d]);
+                return format!("{what} in {name}");
+            }
+        }
+    }
     let def = &mut p.defs[d];
     let what;
     match &mut def.kind {
